@@ -274,8 +274,12 @@ func flowYAML(f Flow) string {
         value: "verif_req"
       - key: metric_type
         value: "counter"
-      - key: metric_value
-        value: "$.request.size"
+  procSet:
+    processor: TransformAPICall
+    parameters:
+      - key: set
+        value:
+          '$.request.headers["x-verif"]': "1"
   procRes:
     processor: UserDefinedMetrics
     parameters:
@@ -283,8 +287,6 @@ func flowYAML(f Flow) string {
         value: "verif_res"
       - key: metric_type
         value: "counter"
-      - key: metric_value
-        value: "$.response.status"
 flow:
   request:
     - from:
@@ -297,6 +299,12 @@ flow:
     - from:
         processor:
           name: procReq
+      to:
+        processor:
+          name: procSet
+    - from:
+        processor:
+          name: procSet
       to:
         stream:
           name: globalStream
